@@ -269,6 +269,8 @@ FINDINGS = [
          what="a statement containing the text target(NAME) inside a string literal (lcd.line(0, \"target(COM3)\"), x = \"see target(COM8)\") was swallowed as a build directive", cases=[]),
     dict(id="KF-C17-progress-empty-range", property="C17", status="fixed", commit="a7f9d26",
          what="lcd.progress with max_value <= 0 drew a full bar (host: empty), with an explicit width <= 0 the whole row (host: one cell)", cases=[]),
+    dict(id="KF-C08-argument-unpacking", property="C08", status="fixed", commit="3441566",
+         what="device calls with unpacked arguments (led.blink(**{\"duration_ms\": 7}), rgb.on(**{\"red\": 10}), SerialMonitor(**{\"baud_rate\": 57600})) were accepted and bound to the defaults", cases=[]),
     dict(id="KF-C14-lcd-rebind", property="C14", status="open", commit=None,
          what="one name bound first to a parallel LCD and later to an I2C LCD (or the reverse): both libraries are requested, but the emitter keeps only the first display (one header, one object); outside the documented style, like KF-C05-rebind",
          cases=c14_rebind_cases()),
